@@ -86,8 +86,8 @@ def run_zone_changes(out, rnd, zones, n):
 
 def run_readback(out, stream, zone, rnd, n):
     cases = []
-    for now in world.interesting_instants(rnd, zone, n):
-        m = rnd.randrange(128)
+    for k, now in enumerate(world.interesting_instants(rnd, zone, n)):
+        m = rnd.randrange(128) if k >= 3 else [0, 0, 127][k]           # the one-time schedule (no days) and the full week are always there
         cases.append({"zone": zone, "now": now, "start": "%02d:%02d" % (rnd.randrange(24), rnd.randrange(60)),
                       "end": "%02d:%02d" % (rnd.randrange(24), rnd.randrange(60)), "days": [d for d in range(7) if m >> d & 1], "slot": rnd.randrange(8)})
     res = world.zone_job(zone, "create_readback", cases)
